@@ -1,5 +1,6 @@
 #!/bin/sh
 # Usage: lib/try_refactor.sh <worktree with patch.diff> <check ids...>: property-preserving change: checks must not print VIOLATION
+export VERIF_EVIDENCE_DIR=/verif/build/evidence_scratch; mkdir -p $VERIF_EVIDENCE_DIR
 WT=$1; shift
 cd "$WT" && git checkout -- src 2>/dev/null; git apply patch.diff || { echo "patch does not apply in worktree"; exit 9; }
 T=$(CARGO_TARGET_DIR=$WT/target cargo test --offline --lib 2>&1 | grep "test result" | head -1); echo "existing tests with patch: $T"
